@@ -20,7 +20,8 @@ func checkC10Bind(c *Ctx, n int) {
 	p.PosArgs, p.SubOpt = 1, 1
 	p.MaxCmdDepth = 2
 	p.Handlers, p.Exec = false, false
-	p.OnlyTypes = []string{"str", "int", "bool", "Lstr"}
+	// (callbacks among the options: an option that RUNS CODE between the words is still just an option)
+	p.OnlyTypes = []string{"str", "int", "bool", "Lstr", "F-", "F-"}
 	p.OptsMask = flags.PassDoubleDash | flags.PrintErrors
 	r := c.Rng
 	for i := 0; i < n; i++ {
@@ -164,7 +165,7 @@ func checkC10Bind(c *Ctx, n int) {
 			for _, grp := range allGroups(cmd) {
 				for _, o := range grp.Options() {
 					sp := "-" + string(o.ShortName)
-					if o.ShortName != 0 && count[sp] == 1 && real.optCode(o) == "bool" && o.Field().Name != "ShowHelp" {
+					if o.ShortName != 0 && count[sp] == 1 && (real.optCode(o) == "bool" || real.optCode(o) == "F-") && o.Field().Name != "ShowHelp" {
 						flagsInScope = append(flagsInScope, sp)
 					}
 					// an option whose argument is optional never takes the next word either
